@@ -51,10 +51,11 @@ def sigMsg : String := "Signal"
 
 /-- `asyncio.CancelledError(message)`: the tags of `Err.cancelled` (1 'shutdown', 4 the signal message) -/
 def mkCancelled (m : String) : PyExc :=
-  .err (.cancelled (if m == "shutdown" then 1 else if m == sigMsg then 4 else 0))
+  .err (.cancelled (if m == "shutdown" then 1 else if m == "shutdown requested by" then 2 else if m == sigMsg then 4 else 0))
 
 @[simp] theorem mkCancelled_shutdown : mkCancelled "shutdown" = .err (.cancelled 1) := by decide
 @[simp] theorem mkCancelled_sig : mkCancelled sigMsg = .err (.cancelled 4) := by decide
+@[simp] theorem mkCancelled_ctl : mkCancelled "shutdown requested by" = .err (.cancelled 2) := by decide
 @[simp] theorem mkExc_invalid (m : String) : mkExc "EdzedInvalidState" m = .invalidState := by simp [mkExc]
 @[simp] theorem mkExc_runtime (m : String) : mkExc "RuntimeError" m = .runtimeError := by
   unfold mkExc; rw [if_neg (by decide), if_pos (by decide)]
@@ -135,6 +136,8 @@ structure TS where
   started : List Nat := []         -- run_forever's local `started_blocks`
   startOk : Bool := false          -- run_forever's local `start_ok`
   simulated : Bool := false        -- `_simulate()` was entered
+  msg : String := ""               -- `_TerminatingSignal._msg` ("" = not set)
+  noted : Nat := 0                 -- notes attached to exceptions by `add_note`
   cancelAt : Nat → Bool := fun _ => false
                                    -- the environment's choice per await of a coroutine that runs in a CALLER's task
                                    -- (wait_init, shutdown, _check_started, run): true = the caller's task is cancelled
@@ -223,7 +226,49 @@ def callFn {ρ ρ' : Type} (m : M TS PyExc ρ Unit) : M TS PyExc ρ' Unit := fun
   scheduleAbort x := fun s => ({ s with st := s.st.addWake .sig, sched := s.sched ++ [x.toErr] }, .next ())
   savedCallable _ := savedCallable
   callSaved := fun s => ({ s with chained := true }, .next ())
+  setSigno o := fun s => ({ s with signo := o.isSome }, .next ())
+  strsignal := M.pure ()
+  setMsg m := fun s => ({ s with msg := m }, .next ())
 
+/-- the `error` item of an 'abort' control event -/
+inductive CtlErr where
+  | exception (id : Nat)   -- an Exception object (the scripted exception `id`)
+  | baseExc                -- a BaseException that is not an Exception (a CancelledError)
+  | text                   -- a string, or the default '<no-error-data>'
+  deriving DecidableEq, Repr
+
+/-- `ControlBlock._event_abort / _event_shutdown`: `Class(message)` by the declared marker of the message; the
+    EdzedCircuitError of the 'abort' event is `reportedText` until a cause is attached -/
+@[reducible] def ctPrims : TrE.CtlPrims TS PyExc CtlErr where
+  mkExc cls marker :=
+    if cls == "EdzedCircuitError" && marker == "error reported by" then .err .reportedText else .other
+  mkCancelled := mkCancelled
+  isException e := match e with | .exception _ => true | _ => false
+  withCause x e := match e with
+    | .exception id => M.pure (match x with | .err .reportedText => .err (.reported id) | x => x)
+    | .baseExc => M.pure .other              -- an EdzedCircuitError caused by a non-Exception: not an error of the model
+    | .text => M.raise .typeError            -- "exception cause must be None or derive from BaseException"
+  abort := abortP
+
+/-- `add_note`: `raises` = the native `exc.add_note(note)` raises (a note that is not a str); otherwise a note is
+    attached -- the exception object, its class and its identity are untouched -/
+@[reducible] def ntPrims (hasNotes firstArgIsStr raises : Bool) : TrE.NotePrims TS PyExc where
+  hasNotes := hasNotes
+  nativeAddNote _ := fun s => if raises then (s, .raise .typeError) else ({ s with noted := s.noted + 1 }, .next ())
+  firstArgIsStr _ := firstArgIsStr
+  prependNote _ := fun s => ({ s with noted := s.noted + 1 }, .next ())
+
+
+/-- `add_note` with primitives that attach the note silently (no counter) -/
+@[reducible] def ntQuiet : TrE.NotePrims TS PyExc where
+  hasNotes := true
+  nativeAddNote _ := M.pure ()
+  firstArgIsStr _ := true
+  prependNote _ := M.pure ()
+
+theorem addNote_quiet (e : PyExc) (s : TS) : (callFn (TrE.addNote ntQuiet e ()) : M TS PyExc Unit Unit) s = (s, .next ()) := by
+  unfold TrE.addNote callFn
+  simp [bind_apply, pure_apply]
 
 /-! ### `run()` -/
 
@@ -243,7 +288,9 @@ def taskDone (s : TS) : Tk → Bool
   mkExc := mkExc
   excIs := excIs
   mkCancelled := mkCancelled
-  sigEnter c := fun s => callFn (TrE.sigEnter (sgPrims false)) { s with signo := c }   -- the TRANSLATED `__enter__`
+  -- the TRANSLATED `_TerminatingSignal(<signo or None>)` and `__enter__`
+  sigEnter c := M.bind (callFn (TrE.sigInit (sgPrims false) (if c then some () else none)))
+    fun _ => callFn (TrE.sigEnter (sgPrims false))
   sigExit _ := callFn (TrE.sigExit (sgPrims false))                                    -- the TRANSLATED `__exit__`
   runForeverHere := awaitSim env .runForever
   createSimtask := M.pure .sim
@@ -272,7 +319,7 @@ def taskDone (s : TS) : Tk → Bool
                 else (s, .raise (.err (.cancelled 0)))                     -- it was cancelled by run()
   -- Python indexing: -len ≤ i < len
   coroName cs i := fun s => if -(cs.length : Int) ≤ i ∧ i < (cs.length : Int) then (s, .next ()) else (s, .raise .indexError)
-  addNote _ := M.pure ()
+  addNote e := callFn (TrE.addNote ntQuiet e ())       -- the TRANSLATED `add_note` (its notes are not counted here)
 
 /-- `n` coroutine objects -/
 def coros (n : Nat) : List Unit := List.replicate n ()
